@@ -524,7 +524,7 @@ fn main() {
         // failure — and is counted in the evidence (`e2e-inconclusive-skipped`, note `skipped`).
         let decisive = ["w a p - 0", "w a r r 0", "w a r - 1", "w a r - 0", "w b p - 0", "w n p - 0"];
         let mut scenarios: Vec<String> = if ctx.quick() {
-            decisive.iter().chain(["w a r o 0", "w a r ro 0", "w n r ro 1", "w b r r 1"].iter()).map(|s| s.to_string()).collect()
+            decisive.iter().map(|s| s.to_string()).collect()
         } else {
             all_scenarios()
         };
